@@ -78,11 +78,11 @@ theorem updateConnectionID_nonempty {m : Manager} (h : Reach m) (hc : m.closed =
 
 /-! ## accepting what was advertised -/
 
-/-- The shape of the code the next theorems rest on (regenerated from /repo): `Add` compares the queue length with
+/-- The shape of the code the next theorems rest on (regenerated from /repo): `Add` compares the queue length by `>=` with
     max(const, connIDLimit), `SetConnectionIDLimit` stores its argument, the spec-driven client passes the limit its
     spec advertises. -/
 theorem shape_facts :
-    Uquic.Gen.ConnID.enforcedBoundUsesConnIDLimit = true ∧ Uquic.Gen.ConnID.setConnectionIDLimitStores = true ∧
+    Uquic.Gen.ConnID.enforcedBoundIsGE = true ∧ Uquic.Gen.ConnID.enforcedBoundUsesConnIDLimit = true ∧ Uquic.Gen.ConnID.setConnectionIDLimitStores = true ∧
     Uquic.Gen.ConnID.specClientSetsConnIDLimit = true := by decide
 
 /-- Full strength: whatever limit `adv` the endpoint advertised — the plain constant, or the limit of a QUIC spec
